@@ -2,9 +2,15 @@ package main
 
 // C17 — shell output reproduces values exactly.
 //
-// op "render": build an esc.Environment from the case, run the real renderValue (hook VerifC17Render in package cli)
-//   for `open --format shell`, `env get --value shell` (redacted, redacted with other secret values, shown) and the
-//   dotenv counterparts, and evaluate the shell scripts with real shell interpreters.
+// op "render": build an esc.Environment from the case and produce the eight renderings twice:
+//   "cli":    through the real commands, in process (hook VerifC17Run = cli.New + cobra with a fake backend client that
+//             serves the environment): `esc open --format shell`, `esc env get --value shell` (secrets hidden, hidden with
+//             other secret values, `--show-secrets`), `esc env open --format dotenv`, `esc env get --value dotenv` (hidden,
+//             hidden/other, `--show-secrets`).  This is where the pretend / showSecrets arguments that env_get.go and
+//             env_open.go pass to renderValue are observed;
+//   "direct": through the unexported renderValue itself (hook VerifC17Render), with the flags those callers are
+//             supposed to pass.
+//   The shell scripts of both are evaluated with real shell interpreters (one evaluation per distinct script).
 // op "sh":     evaluate a given script with the shell interpreters (validation of the Coq shell semantics).
 //
 // A shell observation is a projection: did the interpreter finish normally, was there any effect besides exported
@@ -20,14 +26,18 @@ import (
 	"io"
 	"os"
 	"os/exec"
+	"path/filepath"
 	"regexp"
 	"sort"
+	"strconv"
+	"strings"
 	"sync"
 	"time"
 	"unicode/utf8"
 
 	"github.com/pulumi/esc"
 	"github.com/pulumi/esc/cmd/esc/cli"
+	"github.com/pulumi/esc/cmd/esc/cli/client"
 	"mvdan.cc/sh/v3/expand"
 	"mvdan.cc/sh/v3/interp"
 	"mvdan.cc/sh/v3/syntax"
@@ -36,9 +46,18 @@ import (
 func init() { register("C17", c17) }
 
 const c17Marker = "\nVERIF-C17-MARK\n"
-const c17Trailer = "\nprintf '\\nVERIF-C17-MARK\\n'; /usr/bin/env -0\n"
+const c17Marker2 = "\nVERIF-C17-MARK2\n"
+
+// a value of more than 128 KiB - len(NAME=) cannot be handed to /usr/bin/env (Linux limits one argv/envp string to 128 KiB):
+// for scripts above c17BigLimit bytes the trailer prints the case's variables with the shell's builtin printf and shortens
+// every value of more than c17BigLimit CHARACTERS (${#NAME} counts characters in a multi-byte locale the script itself
+// may have selected; 30000 characters are at most 120000 bytes) to c17Big before env is started
+const c17BigLimit = 30000
+const c17Big = "VERIF-C17-BIG"
 
 var c17BaseEnv = []string{"PATH=/usr/bin:/bin", "HOME=/verif-c17-home", "CANARY=canary-was-expanded", "USER=canary-user"}
+
+var c17NameRe = regexp.MustCompile(`^[A-Za-z_][A-Za-z0-9_]*$`)
 
 func unhex(s string) []byte {
 	b, _ := hex.DecodeString(s)
@@ -46,6 +65,76 @@ func unhex(s string) []byte {
 }
 
 func hx(b []byte) string { return hex.EncodeToString(b) }
+
+// c17Trailer is appended to the script under test: a marker, (for large scripts) the values of the case's variables
+// printed by the builtin printf, a second marker, and the exported environment as /usr/bin/env -0 sees it.
+func c17Trailer(script []byte, names map[string]bool) string {
+	var b strings.Builder
+	b.WriteString("\nprintf '\\nVERIF-C17-MARK\\n'\n")
+	var big []string
+	if len(script) > c17BigLimit {
+		for n := range names {
+			if c17NameRe.MatchString(n) {
+				big = append(big, n)
+			}
+		}
+		sort.Strings(big)
+	}
+	for _, n := range big {
+		b.WriteString("printf '%s=%s\\0' " + n + " \"$" + n + "\"\n")
+	}
+	b.WriteString("printf '\\nVERIF-C17-MARK2\\n'\n")
+	for _, n := range big {
+		b.WriteString("[ \"${#" + n + "}\" -gt " + strconv.Itoa(c17BigLimit) + " ] && " + n + "=" + c17Big + "\n")
+	}
+	b.WriteString("/usr/bin/env -0\n")
+	return b.String()
+}
+
+// ---- time budgets: scaled with a measured no-op ---------------------------------------------------------------
+//
+// An interpreter run gets 20 s + 1000 x (the measured cost of running the empty script in the same interpreter) + 1 s
+// per 64 KiB of script.  When a run exceeds its budget the no-op is measured again: if the machine is so loaded that
+// the no-op itself takes more than 1/100 of the budget, the budget grows with the new measurement and the script is
+// run again (at most three times, then the interpreter's answer is "skip: timeout-under-load", which is counted and is
+// never a pass); if the no-op is fast, the script really does not terminate and the observation is "not finished".
+
+var (
+	c17NoopMu sync.Mutex
+	c17Noop   = map[string]time.Duration{}
+)
+
+func c17SetNoop(who string, d time.Duration) {
+	c17NoopMu.Lock()
+	if d > c17Noop[who] {
+		c17Noop[who] = d
+	}
+	c17NoopMu.Unlock()
+}
+
+func c17Budget(who string, size int) time.Duration {
+	c17NoopMu.Lock()
+	u := c17Noop[who]
+	c17NoopMu.Unlock()
+	return 20*time.Second + 1000*u + time.Duration(size/65536+1)*time.Second
+}
+
+// c17WithBudget runs f under the budget of interpreter who; f reports whether it ran out of time.  noop measures the
+// empty script.  Result: ok=false means "skip: timeout-under-load".
+func c17WithBudget(who string, size int, noop func() time.Duration, f func(budget time.Duration) (timedOut bool)) (ok bool) {
+	for attempt := 0; attempt < 3; attempt++ {
+		budget := c17Budget(who, size)
+		if !f(budget) {
+			return true
+		}
+		u := noop()
+		if u <= budget/100 {
+			return true // the machine is responsive: the script itself does not finish (f's last observation stands)
+		}
+		c17SetNoop(who, u)
+	}
+	return false
+}
 
 // ---- external interpreters -----------------------------------------------------------------------
 
@@ -56,37 +145,77 @@ type c17Raw struct {
 	env      map[string]string
 }
 
-func c17Exec(shell string, script []byte, dir string) c17Raw {
-	ctx, cancel := context.WithTimeout(context.Background(), 20*time.Second)
-	defer cancel()
-	cmd := exec.CommandContext(ctx, shell, "-c", string(script)+c17Trailer)
-	cmd.Env = c17BaseEnv
-	cmd.Dir = dir
-	var so, se bytes.Buffer
-	cmd.Stdout, cmd.Stderr = &so, &se
-	err := cmd.Run()
-	r := c17Raw{stderr: se.Len() != 0}
-	out := so.Bytes()
-	i := bytes.LastIndex(out, []byte(c17Marker))
-	if i < 0 {
-		r.pre = out
-		return r
-	}
-	r.pre = out[:i]
-	r.finished = err == nil
-	r.env = map[string]string{}
-	for _, kv := range bytes.Split(out[i+len(c17Marker):], []byte{0}) {
+func c17SplitEnv(b []byte, into map[string]string) {
+	for _, kv := range bytes.Split(b, []byte{0}) {
 		if len(kv) == 0 {
 			continue
 		}
 		j := bytes.IndexByte(kv, '=')
 		if j < 0 {
-			r.env[string(kv)] = ""
+			into[string(kv)] = ""
 			continue
 		}
-		r.env[string(kv[:j])] = string(kv[j+1:])
+		into[string(kv[:j])] = string(kv[j+1:])
 	}
-	return r
+}
+
+// c17Exec evaluates the file scriptPath (the script under test followed by the trailer) with the interpreter: the
+// script is read from a file, never passed as an argument, so its size is not limited by ARG_MAX.
+func c17Exec(shell, scriptPath, dir string, budget time.Duration) (r c17Raw, timedOut bool) {
+	ctx, cancel := context.WithTimeout(context.Background(), budget)
+	defer cancel()
+	cmd := exec.CommandContext(ctx, shell, scriptPath)
+	cmd.Env = c17BaseEnv
+	cmd.Dir = dir
+	var so, se bytes.Buffer
+	cmd.Stdout, cmd.Stderr = &so, &se
+	err := cmd.Run()
+	timedOut = ctx.Err() != nil
+	r = c17Raw{stderr: se.Len() != 0}
+	out := so.Bytes()
+	i := bytes.LastIndex(out, []byte(c17Marker))
+	j := bytes.LastIndex(out, []byte(c17Marker2))
+	if i < 0 || j < i {
+		r.pre = out
+		return r, timedOut
+	}
+	r.pre = out[:i]
+	r.finished = err == nil
+	printed := map[string]string{}
+	c17SplitEnv(out[i+len(c17Marker):j], printed)
+	r.env = map[string]string{}
+	c17SplitEnv(out[j+len(c17Marker2):], r.env)
+	for k, v := range r.env {
+		if v == c17Big {
+			if pv, ok := printed[k]; ok {
+				r.env[k] = pv
+			}
+		}
+	}
+	return r, timedOut
+}
+
+func c17WriteScript(script []byte, names map[string]bool) (string, error) {
+	f, err := os.CreateTemp("", "verif-c17-script-")
+	if err != nil {
+		return "", err
+	}
+	_, err = f.Write(append(append([]byte(nil), script...), c17Trailer(script, names)...))
+	if cerr := f.Close(); err == nil {
+		err = cerr
+	}
+	return f.Name(), err
+}
+
+func c17NoopExternal(shell, dir string) (time.Duration, map[string]string) {
+	path, err := c17WriteScript(nil, nil)
+	if err != nil {
+		return 0, nil
+	}
+	defer os.Remove(path)
+	t0 := time.Now()
+	r, _ := c17Exec(shell, path, dir, 10*time.Minute)
+	return time.Since(t0), r.env
 }
 
 var (
@@ -94,14 +223,16 @@ var (
 	c17Baselines  = map[string]map[string]string{}
 )
 
-// baseline environment of an interpreter: what the trailer reports after an empty script (PWD is the directory).
+// baseline environment of an interpreter: what the trailer reports after an empty script (PWD is the directory).  The
+// same run is the first measurement of the interpreter's no-op cost.
 func c17Baseline(shell, dir string) map[string]string {
 	c17BaselineMu.Lock()
 	defer c17BaselineMu.Unlock()
 	b, ok := c17Baselines[shell]
 	if !ok {
-		r := c17Exec(shell, nil, dir)
-		b = r.env
+		var d time.Duration
+		d, b = c17NoopExternal(shell, dir)
+		c17SetNoop(shell, d)
 		if b == nil {
 			b = map[string]string{}
 		}
@@ -121,7 +252,7 @@ func c17DirDirty(dir string) bool {
 		return true
 	}
 	for _, e := range es {
-		os.RemoveAll(dir + "/" + e.Name())
+		os.RemoveAll(filepath.Join(dir, e.Name()))
 	}
 	return len(es) != 0
 }
@@ -146,12 +277,23 @@ func c17Project(finished, dirty bool, env, base map[string]string, names map[str
 	return map[string]any{"fin": finished, "clean": !dirty, "vars": vars}
 }
 
-func c17RunExternal(shell string, script []byte, names map[string]bool, dir string) map[string]any {
+func c17RunExternal(shell string, script []byte, scriptPath string, names map[string]bool, dir string) map[string]any {
 	if bytes.IndexByte(script, 0) >= 0 {
 		return map[string]any{"skip": "nul"}
 	}
 	base := c17Baseline(shell, dir)
-	r := c17Exec(shell, script, dir)
+	var r c17Raw
+	ok := c17WithBudget(shell, len(script),
+		func() time.Duration { d, _ := c17NoopExternal(shell, dir); return d },
+		func(budget time.Duration) (timedOut bool) {
+			c17DirDirty(dir)
+			r, timedOut = c17Exec(shell, scriptPath, dir, budget)
+			return timedOut
+		})
+	if !ok {
+		c17DirDirty(dir)
+		return map[string]any{"skip": "timeout-under-load"}
+	}
 	dirty := c17DirDirty(dir) || len(r.pre) != 0 || r.stderr
 	return c17Project(r.finished, dirty, r.env, base, names)
 }
@@ -159,13 +301,14 @@ func c17RunExternal(shell string, script []byte, names map[string]bool, dir stri
 // ---- mvdan.cc/sh (in process; external commands and file opens are recorded, never performed) ---------------
 
 type c17MvdanRun struct {
-	parsed  bool
-	err     error
-	touched bool
-	vars    map[string]expand.Variable
+	parsed   bool
+	err      error
+	touched  bool
+	timedOut bool
+	vars     map[string]expand.Variable
 }
 
-func c17Mvdan(script []byte, dir string) c17MvdanRun {
+func c17Mvdan(script []byte, dir string, budget time.Duration) c17MvdanRun {
 	// the Bash dialect, as in esc's own CLI tests: with the POSIX dialect this interpreter does not treat
 	// `export` as a builtin at all
 	file, err := syntax.NewParser().Parse(bytes.NewReader(script), "")
@@ -190,9 +333,10 @@ func c17Mvdan(script []byte, dir string) c17MvdanRun {
 	if err != nil {
 		return c17MvdanRun{}
 	}
-	ctx, cancel := context.WithTimeout(context.Background(), 20*time.Second)
+	ctx, cancel := context.WithTimeout(context.Background(), budget)
 	defer cancel()
 	res.err = runner.Run(ctx, file)
+	res.timedOut = ctx.Err() != nil
 	res.vars = runner.Vars
 	if so.Len() != 0 || se.Len() != 0 {
 		res.touched = true
@@ -248,6 +392,11 @@ func c17RunMvdan(script []byte, names map[string]bool, dir string) (res map[stri
 		// it also keeps the backslash of an unquoted escape in the arguments of export (export A=\"x yields \"x)
 		return map[string]any{"skip": "unquoted-backslash"}
 	}
+	if bytes.Contains(script, []byte("\\\r\n")) {
+		// mvdan.cc/sh v3.7.0 treats backslash-CR-LF like backslash-LF (a line continuation inside double quotes, and it
+		// drops the CR inside single quotes); dash and bash keep the three bytes.  Its answer is not used.
+		return map[string]any{"skip": "backslash-crlf"}
+	}
 	if c17DoubleBackslashEscape.Match(script) {
 		// mvdan.cc/sh v3.7.0 mis-evaluates an escaped backslash that is followed by another escapable character
 		// inside double quotes ("\\\$" yields $ instead of \$: expand drops the escaping backslash without skipping
@@ -259,13 +408,28 @@ func c17RunMvdan(script []byte, names map[string]bool, dir string) (res map[stri
 			res = map[string]any{"skip": "interpreter-panic"}
 		}
 	}()
+	noop := func() time.Duration {
+		t0 := time.Now()
+		c17Mvdan(nil, dir, 10*time.Minute)
+		return time.Since(t0)
+	}
 	if c17MvdanBase == nil {
-		c17MvdanBase = c17Mvdan(nil, dir).vars
+		t0 := time.Now()
+		c17MvdanBase = c17Mvdan(nil, dir, 10*time.Minute).vars
+		c17SetNoop("mvdan", time.Since(t0))
 		if c17MvdanBase == nil {
 			c17MvdanBase = map[string]expand.Variable{}
 		}
 	}
-	r := c17Mvdan(script, dir)
+	var r c17MvdanRun
+	if !c17WithBudget("mvdan", len(script), noop, func(budget time.Duration) bool {
+		c17DirDirty(dir)
+		r = c17Mvdan(script, dir, budget)
+		return r.timedOut
+	}) {
+		c17DirDirty(dir)
+		return map[string]any{"skip": "timeout-under-load"}
+	}
 	if !r.parsed {
 		return map[string]any{"fin": false, "clean": false, "vars": [][2]string{}}
 	}
@@ -301,9 +465,17 @@ func c17RunAll(script []byte, names map[string]bool) map[string]any {
 		return map[string]any{"error": "mkdtemp"}
 	}
 	defer os.RemoveAll(dir)
+	// the script file lives outside the (empty) working directory the interpreters run in
+	path, err := c17WriteScript(script, names)
+	if path != "" {
+		defer os.Remove(path)
+	}
+	if err != nil {
+		return map[string]any{"error": "script file"}
+	}
 	return map[string]any{
-		"dash":  c17RunExternal("/bin/sh", script, names, dir),
-		"bash":  c17RunExternal("/bin/bash", script, names, dir),
+		"dash":  c17RunExternal("/bin/sh", script, path, names, dir),
+		"bash":  c17RunExternal("/bin/bash", script, path, names, dir),
 		"mvdan": c17RunMvdan(script, names, dir),
 	}
 }
@@ -374,7 +546,54 @@ func c17Names(c map[string]any) map[string]bool {
 	return names
 }
 
+// ---- backend stub for the commands: serves the case's environment, secrets included, whatever it is asked ----------
+
+type c17Client struct {
+	client.Client // nil: any method the commands are not expected to call panics (and is reported)
+	env           *esc.Environment
+}
+
+func (c *c17Client) Insecure() bool { return false }
+func (c *c17Client) URL() string    { return "https://api.pulumi.com" }
+
+func (c *c17Client) EnvironmentExists(ctx context.Context, orgName, projectName, envName string) (bool, error) {
+	return true, nil
+}
+
+func (c *c17Client) GetEnvironment(ctx context.Context, orgName, projectName, envName, version string,
+	decrypt bool) ([]byte, string, int, error) {
+	return []byte("values: {}\n"), "etag-1", 1, nil
+}
+
+func (c *c17Client) CheckYAMLEnvironment(ctx context.Context, orgName string, yaml []byte,
+	opts ...client.CheckYAMLOption) (*esc.Environment, []client.EnvironmentDiagnostic, error) {
+	return c.env, nil, nil
+}
+
+func (c *c17Client) OpenEnvironment(ctx context.Context, orgName, projectName, envName, version string,
+	duration time.Duration) (string, []client.EnvironmentDiagnostic, error) {
+	return "open-1", nil, nil
+}
+
+func (c *c17Client) GetOpenEnvironmentWithProject(ctx context.Context, orgName, projectName, envName,
+	openEnvID string) (*esc.Environment, error) {
+	return c.env, nil
+}
+
+// c17 adds the measured no-op costs (they scale the time budgets; reported in the evidence, never compared)
 func c17(c map[string]any) map[string]any {
+	res := c17Case(c)
+	noop := map[string]int64{}
+	c17NoopMu.Lock()
+	for who, d := range c17Noop {
+		noop[filepath.Base(who)] = d.Microseconds()
+	}
+	c17NoopMu.Unlock()
+	res["noop_us"] = noop
+	return res
+}
+
+func c17Case(c map[string]any) map[string]any {
 	switch str(c, "op") {
 	case "sh":
 		names := map[string]bool{}
@@ -387,27 +606,61 @@ func c17(c map[string]any) map[string]any {
 		return map[string]any{"sh": c17RunAll(unhex(str(c, "script")), names)}
 	case "render":
 		prefix := string(unhex(str(c, "prefix")))
-		env, envAlt := c17Env(c, false), c17Env(c, true)
 		names := c17Names(c)
-		res := map[string]any{}
-		render := func(name string, e *esc.Environment, format string, pretend, show bool) string {
-			out, _, err := cli.VerifC17Render(e, format, pretend, show, prefix)
-			if err != nil {
-				res[name+"_err"] = true
+		shells := map[string]map[string]any{} // one evaluation per distinct script
+		runAll := func(script string) map[string]any {
+			if o, ok := shells[script]; ok {
+				return o
 			}
-			res[name] = hx([]byte(out))
-			return out
+			o := c17RunAll([]byte(script), names)
+			shells[script] = o
+			return o
 		}
-		open := render("open_shell", env, "shell", false, true)
-		red := render("get_shell_red", env, "shell", true, false)
-		render("get_shell_red_alt", envAlt, "shell", true, false)
-		render("get_shell_show", env, "shell", true, true)
-		render("open_dotenv", env, "dotenv", false, true)
-		render("get_dotenv_red", env, "dotenv", true, false)
-		render("get_dotenv_red_alt", envAlt, "dotenv", true, false)
-		res["open_sh"] = c17RunAll([]byte(open), names)
-		res["red_sh"] = c17RunAll([]byte(red), names)
-		return res
+		kind := func(render func(alt bool, format string, get, show bool) (string, bool)) map[string]any {
+			res := map[string]any{}
+			one := func(name string, alt bool, format string, get, show bool) string {
+				out, ok := render(alt, format, get, show)
+				if !ok {
+					res[name+"_err"] = true
+				}
+				res[name] = hx([]byte(out))
+				return out
+			}
+			open := one("open_shell", false, "shell", false, true)
+			red := one("get_shell_red", false, "shell", true, false)
+			one("get_shell_red_alt", true, "shell", true, false)
+			one("get_shell_show", false, "shell", true, true)
+			one("open_dotenv", false, "dotenv", false, true)
+			one("get_dotenv_red", false, "dotenv", true, false)
+			one("get_dotenv_red_alt", true, "dotenv", true, false)
+			one("get_dotenv_show", false, "dotenv", true, true)
+			res["open_sh"] = runAll(open)
+			res["red_sh"] = runAll(red)
+			return res
+		}
+		// every rendering starts from a freshly built environment: nothing is shared between the commands
+		direct := kind(func(alt bool, format string, get, show bool) (string, bool) {
+			out, _, err := cli.VerifC17Render(c17Env(c, alt), format, get, show, prefix)
+			return out, err == nil
+		})
+		viaCLI := kind(func(alt bool, format string, get, show bool) (string, bool) {
+			const ref = "org/proj/env"
+			var args []string
+			switch {
+			case get:
+				args = []string{"env", "get", ref, "--value", format}
+				if show {
+					args = append(args, "--show-secrets")
+				}
+			case format == "shell":
+				args = []string{"open", ref, "--format", format} // the top-level alias
+			default:
+				args = []string{"env", "open", ref, "--format", format}
+			}
+			stdout, _, _, err := cli.VerifC17Run(&c17Client{env: c17Env(c, alt)}, args, prefix)
+			return stdout, err == nil
+		})
+		return map[string]any{"direct": direct, "cli": viaCLI}
 	}
 	return map[string]any{"res": "badop"}
 }
